@@ -22,7 +22,8 @@ ASSUMPTIONS = [
     "an empty diagram is read as the one-point diagram {(0,0)}, index 0, as the statement says",
 ]
 BOUNDS = {
-    "quick": [{"n": 2, "G": 3, "rank_bound": 4}, {"n": 3, "G": 2, "rank_bound": 4}],
+    "quick": [{"n": 2, "G": 3, "rank_bound": 4}, {"n": 3, "G": 2, "rank_bound": 4},
+              {"n": 3, "alphabet": [[0, 1], [2, 3], [0, 3], [1, 2], [3, 3]], "rank_bound": 4}],
     "thorough": [{"n": 3, "G": 3, "rank_bound": 5}, {"n": 4, "G": 2, "rank_bound": 4}],
 }
 
@@ -33,7 +34,8 @@ def bounds(tier):
 
 def cases(tier):
     for sp in BOUNDS[tier]:
-        for c in pair_cases(lattice_points(sp["G"]), sp["n"]):
+        alphabet = [tuple(p) for p in sp["alphabet"]] if "alphabet" in sp else lattice_points(sp["G"])
+        for c in pair_cases(alphabet, sp["n"]):
             c["rank_bound"] = sp["rank_bound"]
             yield c
 
